@@ -516,6 +516,7 @@ class ContainerValue:
             "list_value": ListValue,
             "map_or_list_value": MapOrListValue,
         }
+        spec = dict(spec)  # entries are popped below: work on a copy, not on the caller's mapping
         container_type = spec.pop("type", "map_or_list_value")
         try:
             cls = CLS_LOOKUP[container_type]
